@@ -243,6 +243,182 @@ def reference(c, x):
     return (f.name, f.addr, ps), src, frames
 
 
+
+# ----------------------------------------------------------------------------- generator statistics
+def _bucket(n):
+    return str(n) if n <= 4 else ("5-8" if n <= 8 else ("9-16" if n <= 16 else ">16"))
+
+
+def _overlap(rs):
+    rs = sorted(r for r in rs if r)
+    return any(a[1] >= b[0] for a, b in zip(rs, rs[1:]))
+
+
+def measure(lines):
+    """distribution of the generated inputs, printed into the evidence: records per kind, overlap classes,
+    inline depth, PUBLIC/FUNC adjacency, where the queried addresses fall relative to the records"""
+    st = {}
+
+    def inc(k, sub, n=1):
+        d = st.setdefault(k, {})
+        d[sub] = d.get(sub, 0) + n
+    for line in lines:
+        c = parse_case(line)
+        if c.parse_error:
+            inc("file", "sub-records without FUNC (parse error)")
+            continue
+        inc("file", "non-overlapping" if c.nonoverlap else "overlapping")
+        fr = [rng_func(f.addr, f.size) for f in c.funcs]
+        inc("FUNC per file", _bucket(len(c.funcs)))
+        inc("PUBLIC per file", _bucket(len(c.pubs)))
+        inc("STACK WIN per file", _bucket(len(c.win[4]) + len(c.win[0])))
+        inc("line records per file", _bucket(sum(len(f.lines) for f in c.funcs)))
+        inc("INLINE ranges per file", _bucket(sum(len(f.inls) for f in c.funcs)))
+        inc("INLINE ranges per FUNC (max)", _bucket(max([len(f.inls) for f in c.funcs] + [0])))
+        inc("max inline depth recorded", _bucket(max([e[0] for f in c.funcs for e in f.inls] + [-1]) + 1))
+        if _overlap([clip(f.addr, f.size) for f in c.funcs]):
+            inc("overlap class", "FUNC/FUNC")
+        if len(set((f.addr, f.size) for f in c.funcs if f.size)) < len([f for f in c.funcs if f.size]):
+            inc("overlap class", "duplicate FUNC range")
+        if any(_overlap([clip(a, s_) for (a, s_, _, _) in f.lines]) for f in c.funcs):
+            inc("overlap class", "line/line in one FUNC")
+        for f in c.funcs:
+            by = {}
+            for e in f.inls:
+                by.setdefault(e[0], []).append(clip(e[1], e[2]))
+            if any(_overlap(v) for v in by.values()):
+                inc("overlap class", "same-depth INLINE/INLINE")
+                break
+        if any(_overlap([clip(a, s_) for (a, s_, _, _) in c.win[ty]]) for ty in (4, 0)):
+            inc("overlap class", "STACK WIN/STACK WIN")
+        if any(e[2] == 0 for f in c.funcs for e in f.inls):
+            inc("degenerate records", "zero-size INLINE")
+        if any(l[1] == 0 for f in c.funcs for l in f.lines):
+            inc("degenerate records", "zero-size line")
+        if any(f.size == 0 for f in c.funcs):
+            inc("degenerate records", "zero-size FUNC")
+        if any(f.addr + f.size > U64 for f in c.funcs) or any(e[1] + e[2] > U64 for f in c.funcs for e in f.inls) or \
+                any(l[0] + l[1] - 1 > U64 for f in c.funcs for l in f.lines):
+            inc("degenerate records", "end past 2^64-1")
+        if any(r and not in_r(fr[i], r[0]) or r and not in_r(fr[i], r[1]) for i, f in enumerate(c.funcs)
+               for r in [rng_line(l[0], l[1]) for l in f.lines] + [rng_inl(e[1], e[2]) for e in f.inls]):
+            inc("degenerate records", "sub-record outside its FUNC")
+        if any(e[5] not in c.origins for f in c.funcs for e in f.inls):
+            inc("degenerate records", "INLINE with undefined origin")
+        if any(l[3] not in c.files for f in c.funcs for l in f.lines):
+            inc("degenerate records", "line with undefined FILE")
+        # PUBLIC / FUNC adjacency
+        starts = sorted(r[0] for r in fr if r)
+        for pb in c.pubs:
+            a = pb[0]
+            if any(r and r[0] == a for r in fr):
+                inc("PUBLIC position", "at a FUNC start")
+            elif any(in_r(r, a) for r in fr):
+                inc("PUBLIC position", "inside a FUNC")
+            elif any(r and r[1] + 1 == a for r in fr):
+                inc("PUBLIC position", "first byte after a FUNC")
+            elif not starts:
+                inc("PUBLIC position", "file without FUNC")
+            elif a < starts[0]:
+                inc("PUBLIC position", "before every FUNC")
+            elif a > starts[-1]:
+                inc("PUBLIC position", "after every FUNC")
+            else:
+                inc("PUBLIC position", "in a hole between FUNCs")
+        if len(set(pb[0] for pb in c.pubs)) < len(c.pubs):
+            inc("PUBLIC position", "files with two PUBLICs at one address")
+        # module placement
+        if c.mbase == 0:
+            inc("module 0 base", "0")
+        elif c.mbase >= U64 - 4096:
+            inc("module 0 base", "within 4096 of 2^64-1")
+        elif c.mbase >= 1 << 63:
+            inc("module 0 base", ">= 2^63")
+        else:
+            inc("module 0 base", "other")
+        inc("modules in list", str(len(c.mods)))
+        mr = [rng_func(b, sz) if sz <= U32 else None for (b, sz, _) in c.mods]
+        for i, (b, sz, hs) in enumerate(c.mods[1:], 1):
+            r = mr[i]
+            if r is None:
+                inc("extra module", "empty / not representable (base+size > 2^64-1)")
+            elif mr[0] and r[0] <= mr[0][1] and mr[0][0] <= r[1]:
+                inc("extra module", "intersects module 0")
+            elif r[1] == U64 - 1 or b + sz == U64:
+                inc("extra module", "ends at 2^64-1")
+            elif mr[0] and r[0] == mr[0][1] + 1:
+                inc("extra module", "adjacent after module 0")
+            elif mr[0] and r[1] < mr[0][0]:
+                inc("extra module", "below module 0")
+            else:
+                inc("extra module", "above module 0")
+        # queries
+        for q in c.qs:
+            if q < c.mbase:
+                inc("query", "below module base (base > address)")
+                continue
+            x = q - c.mbase
+            cov = [i for i, r in enumerate(fr) if in_r(r, x)]
+            if q == U64:
+                inc("query", "instruction = 2^64-1")
+            if not cov:
+                if any(r and r[1] + 1 == x for r in fr):
+                    inc("query", "first byte after a FUNC")
+                elif any(r and r[0] == x + 1 for r in fr):
+                    inc("query", "last byte before a FUNC")
+                elif starts and starts[0] < x < starts[-1]:
+                    inc("query", "hole between FUNCs")
+                else:
+                    inc("query", "outside every FUNC (before first / after last / no FUNC)")
+                pbs = [pb for pb in c.pubs if pb[0] <= x]
+                if pbs:
+                    pb = max(pbs)
+                    if any(r and r[0] == pb[0] for r in fr) and any(r and pb[0] <= r[0] <= x for r in fr):
+                        inc("query: PUBLIC fallback", "cut by a FUNC starting at the PUBLIC's address")
+                    elif any(r and pb[0] <= r[0] <= x for r in fr):
+                        inc("query: PUBLIC fallback", "cut by an intervening FUNC")
+                    elif pb[0] == x:
+                        inc("query: PUBLIC fallback", "PUBLIC exactly at the address")
+                    else:
+                        inc("query: PUBLIC fallback", "PUBLIC below the address, not cut")
+                elif c.pubs:
+                    inc("query: PUBLIC fallback", "every PUBLIC above the address")
+                continue
+            if len(cov) > 1:
+                inc("query", "inside several FUNC records")
+            f, r = c.funcs[cov[0]], fr[cov[0]]
+            inc("query", "FUNC first byte" if x == r[0] else ("FUNC last byte" if x == r[1] else "FUNC interior"))
+            lr = [rng_line(l[0], l[1]) for l in f.lines]
+            if any(in_r(v, x) for v in lr):
+                inc("query: line table", "line first byte" if any(v and v[0] == x for v in lr) else
+                    ("line last byte" if any(v and v[1] == x for v in lr) else "line interior"))
+            elif f.lines:
+                inc("query: line table", "hole of the line table")
+            else:
+                inc("query: line table", "FUNC without lines")
+            depth = 0
+            while any(e[0] == depth and in_r(rng_inl(e[1], e[2]), x) for e in f.inls):
+                depth += 1
+            inc("query: inline chain length", _bucket(depth))
+            if f.inls:
+                ir = [rng_inl(e[1], e[2]) for e in f.inls]
+                if any(v and v[0] == x for v in ir):
+                    inc("query: inline ranges", "at a range start")
+                if any(v and v[1] == x for v in ir):
+                    inc("query: inline ranges", "at a range's last byte")
+                if any(v and v[1] + 1 == x for v in ir):
+                    inc("query: inline ranges", "first byte after a range")
+                if depth == 0 and any(e[0] > 0 and in_r(rng_inl(e[1], e[2]), x) for e in f.inls):
+                    inc("query: inline ranges", "covered at depth >= 1 only (depth 0 missing)")
+                if depth > 0 and any(e[0] > depth and in_r(rng_inl(e[1], e[2]), x) for e in f.inls):
+                    inc("query: inline ranges", "chain interrupted by a missing depth")
+            if any(in_r(rng_func(a, s_), x) for ty in (4, 0) for (a, s_, _, _) in c.win[ty]):
+                both = all(any(in_r(rng_func(a, s_), x) for (a, s_, _, _) in c.win[ty]) for ty in (4, 0))
+                inc("query: parameter size", "frame data and fpo both cover" if both else "one STACK WIN table covers")
+            else:
+                inc("query: parameter size", "FUNC's own")
+    return st
+
 # ----------------------------------------------------------------------------- answers
 def p3(s):
     if s == "-":
@@ -352,6 +528,9 @@ class C11(PropBase):
                 b, sz = max(0, mb - rng.below(64)), rng.below(128)       # before / overlapping its start
             elif st == 2:
                 b, sz = U64 - rng.below(64), rng.below(80)               # top of the address space, may overflow
+                if rng.chance(1, 2):
+                    sz = (U64 - b) + rng.choice([0, 0, 1, -1])           # ends exactly at 2^64-1 / one past / one short
+                    sz = max(0, sz)
             elif st == 3:
                 b, sz = mb + rng.below(64), rng.below(64)                # inside module 0
             elif st == 4:
@@ -496,7 +675,11 @@ class C11(PropBase):
             pos += size
             if rng.chance(1, 3):
                 a = pos - size + rng.below(size)
-                items.append(("W", rng.choice([4, 0]), a, rng.range(1, pos - a), rng.below(64), rng.below(3)))
+                ty = rng.choice([4, 0])
+                items.append(("W", ty, a, rng.range(1, pos - a), rng.below(64), rng.below(3)))
+                if rng.chance(1, 2):        # the other table covers part of the same FUNC too (frame data must win)
+                    a2 = pos - size + rng.below(size)
+                    items.append(("W", 4 - ty, a2, rng.range(1, pos - a2), 64 + rng.below(64), rng.below(3)))
         for i in pending:
             items.append(("O", i, 200 + i))
         if rng.chance(1, 2):
@@ -539,6 +722,74 @@ class C11(PropBase):
                     items.append(("W", rng.choice([4, 0, 4, 0, 1]), A(), rng.choice([0, 1, 4, 8, 30, 80]), rng.below(8), rng.below(2)))
         return items
 
+    def gen_deep(self, rng):
+        """deep inline chains (10..70 nested levels), optionally interrupted by a missing level, with
+        disconnected INLINE records at huge depth values (2^31, u32::MAX) and same-depth siblings"""
+        items = [("F", 1, 101), ("F", 2, 102)]
+        norig = rng.range(2, 6)
+        for i in range(1, norig + 1):
+            items.append(("O", i, 200 + i))
+        pos = rng.below(6)
+        for fi in range(rng.range(1, 2)):
+            size = rng.choice([40, 90, 200])
+            items.append(("U", pos, size, rng.below(16), 400 + fi))
+            fitems = []
+            lp = pos
+            while lp < pos + size:
+                ls = min(rng.range(1, 24), pos + size - lp)
+                if rng.chance(5, 6):
+                    fitems.append(("L", lp, ls, rng.below(60), rng.range(1, 2)))
+                lp += ls
+            depth_n = rng.choice([10, 12, 17, 20, 33, 70])
+            missing = rng.range(1, depth_n - 1) if rng.chance(1, 3) else None
+            lo, hi = pos + rng.below(2), pos + size - rng.below(2)
+            for d in range(depth_n):
+                if hi - lo < 1:
+                    break
+                if d != missing:
+                    rs = [(lo, hi - lo)]
+                    if rng.chance(1, 4) and hi + 2 < pos + size and d > 0:
+                        rs.append((hi + 1, rng.range(1, pos + size - hi - 1)))     # a sibling range further right
+                    fitems.append(("I", d, rng.below(90), rng.range(1, 2), rng.range(1, norig), rs))
+                lo += rng.below(2)
+                hi -= rng.below(2)
+            if rng.chance(1, 2):
+                for dv in rng.choice([[U32], [1 << 31], [U32, U32 - 1], [1000], [depth_n + 1]]):
+                    fitems.append(("I", dv, rng.below(90), 1, rng.range(1, norig), [(pos + rng.below(4), size - 4)]))
+            for j in range(len(fitems) - 1, 0, -1):
+                k = rng.below(j + 1)
+                fitems[j], fitems[k] = fitems[k], fitems[j]
+            items += fitems
+            pos += size + rng.below(3)
+        return items
+
+    def gen_wide(self, rng):
+        """many FUNCs (10..40) and PUBLICs (up to 20): longer tables for the FUNC lookup, the previous-FUNC
+        binary search and the reverse PUBLIC scan; PUBLICs at FUNC starts, inside, in holes, after the last"""
+        items = [("F", 1, 101)]
+        n = rng.range(10, 40)
+        pos = rng.below(4)
+        spots = []
+        messy = rng.chance(1, 4)
+        for fi in range(n):
+            gap = rng.choice([0, 0, 1, 2, 5])
+            if gap:
+                spots.append(pos + rng.below(gap))
+            pos += gap
+            size = rng.choice([1, 1, 2, 3, 6])
+            a = pos - rng.below(3) if messy and rng.chance(1, 5) and pos > 3 else pos
+            items.append(("U", a, size if not (messy and rng.chance(1, 10)) else 0, rng.below(8), 400 + fi))
+            if rng.chance(2, 3):
+                items.append(("L", a, size, 10 + fi, 1))
+            spots.append(a)
+            if size > 1:
+                spots.append(a + rng.range(1, size - 1))
+            pos += size
+        spots += [pos, pos + 1, pos + 7]
+        for _ in range(rng.range(1, 20)):
+            items.append(("P", rng.choice(spots), rng.below(8), 300 + rng.below(30)))
+        return items
+
     def gen_cases(self, tier, seed):
         rng = Rng(seed)
         cases = []
@@ -574,6 +825,16 @@ class C11(PropBase):
                 kind += "+modules"
             qs = self.queries(rng, mb, items, 40, extra)
             add(kind, fmt_case(mb, msize, qs, items, extra))
+        for _ in range(300 if tier == "quick" else 2500):
+            items = self.gen_deep(rng)
+            mb = rng.choice([0, 0x1000, 1 << 63, U64 - 500 - rng.below(4)])
+            add("deep_inline", fmt_case(mb, min(U32, U64 - mb), self.queries(rng, mb, items, 60), items))
+        for _ in range(300 if tier == "quick" else 2500):
+            items = self.gen_wide(rng)
+            mb = rng.choice([0, 0x1000, U64 - 400])
+            msz = min(4096, U64 - mb)
+            extra = self.gen_modules(rng, mb, msz) if rng.chance(1, 3) else []
+            add("many_funcs", fmt_case(mb, msz, self.queries(rng, mb, items, 80, extra), items, extra))
         # dropped over-long FUNC lines (200 KB each: only a handful)
         for n in range(12 if tier == "quick" else 60):
             items = self.gen_nested(rng, 16)
@@ -592,6 +853,7 @@ class C11(PropBase):
                     placed = True
             qs = self.queries(rng, 0, out, 40)
             add("dropped_func_line", fmt_case(0, U32, qs, out))
+        dist["measured"] = measure(cases)
         return cases, dist, True
 
     # ------------------------------------------------------------------ oracle
